@@ -7,6 +7,7 @@ import (
 	"context"
 	"math/big"
 	"sync"
+	"time"
 
 	"github.com/MinterTeam/minter-go-node/config"
 	"github.com/MinterTeam/minter-go-node/coreV2/appdb"
@@ -38,6 +39,8 @@ func verifChain() *Blockchain {
 	adb.AddVersion(V310, 1)
 	adb.AddVersion(V320, 2)
 	adb.AddVersion(V330, 3)
+	adb.SetEmission(verifBigPos("emission"))
+	adb.SetPrice(time.Unix(1704000000, 0).UTC(), verifBigPos("price.r0"), verifBigPos("price.r1"), verifBigNN("price.last"), false)
 	bc := &Blockchain{
 		appDB:                           adb,
 		eventsDB:                        ev,
